@@ -110,3 +110,81 @@ func manyEmptyReadsUnit() harness.Unit {
 		c.Sample("block sizes 8/16 x L {0,150,257,400} x {1 empty read before every byte, 2 before every 3 bytes, 1 before every 64} x caller buffers {1, bs, 100}; P7BlockEnc over the same sources")
 	}}
 }
+
+// ---- other ways of consuming the padding reader ------------------------------------------------------
+//
+// A caller may drain the reader with io.Copy, io.ReadAll, io.CopyN, or Read a little first and copy
+// the rest (io.Copy uses a WriterTo fast path when the reader offers one). Whatever the mix, the bytes
+// are the source bytes followed by one pad.
+
+type plainWriter struct{ buf bytes.Buffer }
+
+func (w *plainWriter) Write(p []byte) (int, error) { return w.buf.Write(p) }
+
+func consumptionModesUnit() harness.Unit {
+	return harness.Unit{Name: "reader/consumption-modes", Run: func(c *harness.Ctx) {
+		for _, bs := range []int{8, 16} {
+			lens := []int{}
+			for L := 0; L <= 2*bs+1; L++ {
+				lens = append(lens, L)
+			}
+			lens = append(lens, 1000, 5000)
+			for _, L := range lens {
+				data := pu.Msg(L+5, L)
+				want := pad(data, bs)
+				for _, first := range []int{0, 1, bs - 1, bs, bs + 1, 3 * bs} {
+					for _, mode := range []string{"io.Copy", "io.ReadAll", "io.CopyN in two halves", "io.Copy to a plain Writer"} {
+						tag := fmt.Sprintf("bs=%d L=%d: Read(%d) first, then %s", bs, L, first, mode)
+						c.Add("executions", 1)
+						c.DistinctS("states", tag)
+						var got []byte
+						var err error
+						if c.Guard("reader-panic:consumption", tag, nil, func() {
+							rd := padding.NewPKCS7PaddingReader(bytes.NewReader(data), bs)
+							if first > 0 {
+								b := make([]byte, first)
+								n, e := io.ReadFull(rd, b)
+								got = append(got, b[:n]...)
+								if e != nil && e != io.EOF && e != io.ErrUnexpectedEOF {
+									err = e
+									return
+								}
+							}
+							switch mode {
+							case "io.Copy":
+								var out bytes.Buffer
+								_, err = io.Copy(&out, rd)
+								got = append(got, out.Bytes()...)
+							case "io.ReadAll":
+								var rest []byte
+								rest, err = io.ReadAll(rd)
+								got = append(got, rest...)
+							case "io.CopyN in two halves":
+								var out bytes.Buffer
+								remaining := int64(len(want) - len(got))
+								if remaining > 0 {
+									_, err = io.CopyN(&out, rd, remaining/2)
+									if err == nil {
+										_, err = io.Copy(&out, rd)
+									}
+								}
+								got = append(got, out.Bytes()...)
+							default:
+								w := &plainWriter{}
+								_, err = io.Copy(w, rd)
+								got = append(got, w.buf.Bytes()...)
+							}
+							c.Add("transitions", 2)
+						}) {
+							continue
+						}
+						if err != nil || !bytes.Equal(got, want) {
+							c.Violate(fmt.Sprintf("reader-consumption:%s:bs%d", mode, bs), fmt.Sprintf("[%s] got %d bytes (err %v), want the %d source bytes followed by one pad (%d bytes); tail %x vs %x", tag, len(got), err, L, len(want), tail(got, bs), tail(want, bs)), nil, tag)
+						}
+					}
+				}
+			}
+		}
+		c.Sample("block sizes 8/16 x lengths 0..2bs+1, 1000, 5000 x an initial Read of {0,1,bs-1,bs,bs+1,3bs} bytes x {io.Copy, io.ReadAll, io.CopyN+io.Copy, io.Copy to a plain Writer}")
+	}}
+}
